@@ -312,6 +312,11 @@ pub fn run(p: &Params) -> Report {
                     rep.count("skipped:private_keys_or_having");
                     continue;
                 }
+                if q.features.contains(&"outer_join_protected") {
+                    // rows preserved by the outer join without a privacy unit are dropped by the tracking (C05 finding)
+                    rep.count("skipped:outer_join_of_protected_tables");
+                    continue;
+                }
                 if q.features.contains(&"dp_over_dp") {
                     // the inner aggregation is itself noised and thresholded: exactness is about one level
                     rep.count("skipped:dp_over_dp");
